@@ -685,7 +685,7 @@ func runC07(c *vk.Ctx) {
 		wg2.Wait()
 	}
 	{
-		ngc := c.Pick(24, 480)
+		ngc := c.Pick(16, 96)
 		var next atomic.Int64
 		var wg3 sync.WaitGroup
 		for w := 0; w < workers; w++ {
